@@ -1,4 +1,5 @@
 """C18 -- infiniplot draws each data slice once, correctly styled and correctly placed."""
+import hashlib
 import itertools
 import json
 import math
@@ -20,12 +21,20 @@ TOL = 1e-9
 
 TRUSTED = [
     "Coq 8.16.1 kernel (coqc, full .vo build); vm_compute for the non-vacuity Examples and for evaluating cases",
-    "PROVED for all sizes (Props/C18.v over Model/Infini.v): which coordinate combinations are drawn (exactly those "
-    "of the domains that have data, each once, in product order), the panel (index of the row / column coordinate), "
-    "the data of a line (the slice, gaps kept or removed), style = function of the mapped coordinate, injective below "
-    "the number of distinct defaults (cyclic markers / line styles, strictly monotone linspace), dropna(how='all') "
-    "never loses a coordinate combination that has data, heat-map mesh cell (i, j) = z(y_i, x_j), histogram bins "
-    "partition [e_0, e_n] and the density integrates to 1 over the true bin widths",
+    "PROVED for all sizes (Props/C18.v over Model/Infini.v; 'Closed under the global context', no axiom): the drawn "
+    "coordinate combinations are exactly, in product order, those of the final domains that have data, none twice "
+    "(C18_each_slice_once); dropna(how='all') keeps every coordinate that has data, so that in line mode every "
+    "point with an x and a y value inside the explicit orders lies on a drawn line (C18_dropna_keeps_data, "
+    "C18_none_missing: end to end, aggregation included); panel = (index of the row coordinate, index of the col "
+    "coordinate), unique under duplicate-free domains (C18_panel, C18_domains_nodup); data of a line = the slice, "
+    "gaps kept or removed (C18_data_exact); style = function of the mapped coordinate (C18_style_functional), "
+    "injective below the number of distinct defaults: cyclic 15 markers / 6 line styles, strictly monotone linspace "
+    "for sizes / widths / colormap position, hue sweep (C18_style_injective, _linspace_monotone, _hue_monotone, "
+    "_cyclic); heat-map: one mesh per combination, cell (a, b) = z(x_b, y_a) (C18_heatmap_mesh); histogram: bins "
+    "partition [e_0, e_n], counts add up, density integrates to 1 over the TRUE bin widths (C18_hist_counts)",
+    "PARTIAL -- not proved: for histogram and heat-map mode the end-to-end 'none missing' link (only the loop-level "
+    "statement and dropna completeness are proved); that the hypotheses wf_maps hold of the list the code processes "
+    "is shown for the example only (they say: no dimension mapped twice, orders duplicate free)",
     "hand model Model/Infini.v of Infiniplotter.__init__ / init_mapped_dim / plot_lines / plot_heatmap / the histogram "
     "branch, tied to the code by (i) translator harness/translator/gen_infini.py -> Gen/GenInfini.v + "
     "Bridge/BridgeInfini.v (fixed order of init_mapped_dim calls, hue->color rule, dropna how, lengths and "
@@ -299,7 +308,7 @@ def signature(cfg):
     return json.dumps([cfg["mode"], cfg["sizes"], cfg["xdim"], cfg["ydim"],
                        [(m["prop"], m["dims"], m["order"]) for m in cfg["maps"]], cfg["agg"], cfg.get("agg_err"),
                        cfg.get("agg_method"), cfg.get("err_style"), cfg["jam"], cfg["palette"], cfg.get("bins"),
-                       cfg.get("bins_density"), hash(mask) if len(mask) > 64 else mask], default=str)
+                       cfg.get("bins_density"), hashlib.md5(mask.encode()).hexdigest() if len(mask) > 64 else mask], default=str)
 
 
 # ------------------------------------------------------------------------------------------ expected structure
@@ -1332,9 +1341,15 @@ def evaluate(c, cfg, pairs, metas):
 
 def run(tier, seed):
     c = core.Check("C18", tier, seed)
-    gen = core.regen()
-    b = core.build(PROP_FILE)
-    g = gen.get("GenInfini", {"ok": False, "detail": "unit GenInfini is not registered"})
+    for attempt in range(3):
+        gen = core.regen()
+        b = core.build(PROP_FILE)
+        g = gen.get("GenInfini", {"ok": False, "detail": "unit GenInfini is not registered"})
+        if not g["ok"] or gen_file_current():
+            break       # else: another process regenerated Gen/ from a different tree in between -- do it again
+    else:
+        c.obligation_broken("Gen/GenInfini.v keeps being overwritten by another process",
+                            "the bridge lemmas were not checked against this source tree")
     c.cov["translator"] = g
     c.cov["build"] = {"ok": b["ok"], "failed_file": b["failed_file"], "wall_s": round(b.get("wall_s", 0), 1)}
     if not g["ok"]:
@@ -1363,6 +1378,15 @@ def run(tier, seed):
                                      "observed": json.dumps(pairs[i][1])[:1500]})
     else:
         c.obligation_broken("model evaluation: Model/Infini.vo is missing", b.get("log_tail", "")[-400:])
+    if tier == "thorough" and b["ok"]:
+        import fcntl
+        with open(core.LOCK, "w") as lk:
+            fcntl.flock(lk, fcntl.LOCK_EX)
+            rc, out = core.sh("timeout 600 coqchk -silent -o -R . XV XV.Props.C18", timeout=630, cwd=core.COQ)
+        tail = " ".join(out.strip().splitlines()[-6:])[-600:]
+        c.cov["coqchk"] = {"cmd": "coqchk -silent -o -R . XV XV.Props.C18", "ok": rc == 0, "summary": tail}
+        if rc != 0:
+            c.obligation_broken("coqchk of Props/C18.vo", out[-800:])
     c.cov["disagreements_checked"] = nbad
     c.cov["model_comparisons"] = len(pairs)
     c.cov["exhaustive"] = False
@@ -1382,6 +1406,15 @@ def run(tier, seed):
         "implementation",
     ]
     return c.finish(b, PROP_FILE, TRUSTED, RULE)
+
+
+def gen_file_current():
+    """Is coq/Gen/GenInfini.v (what the bridge was compiled against) the translation of THIS source tree?"""
+    try:
+        from harness.translator import gen_infini
+        return open(os.path.join(core.COQ, "Gen", "GenInfini.v")).read() == gen_infini.generate(core.REPO)
+    except Exception:
+        return True     # a refusal is reported through core.regen()
 
 
 def replay(path):
